@@ -23,7 +23,21 @@ RULE = ("histories of 1..6 editing operations (list insert/append/pop, list-leve
         "below keeps its parent or is captured' are judged there. Object-level operations take their object from the committed "
         "tree: while an uncommitted change is pending (auto_commit off) delete/append_to_family are skipped on both sides, because "
         "line numbers of held objects are documented to be stale until commit. non-trivial = a history with at least one successful "
-        "mutation; distinct by request. The buckets `frame:*` count the situations of the parent-frame theorems that occurred.")
+        "mutation; distinct by request. The buckets `frame:*` count the situations of the parent-frame theorems that occurred. "
+        "INPUT FORMS AND REJECTIONS (added after a line/branch coverage report of the anchored functions, notes/coverage/C06.json; "
+        "channel `editx`, model Ccp.Model.EditForms): stream `forms` = 142 single operations on every seed config (+ a third of them under "
+        "ignore_blank_lines, a quarter under nxos with auto_commit off, half of the list-level ones on the banner/macro configs): a "
+        "BaseCfgLine object (not in the list) instead of the str as payload of ConfigList.insert, obj.insert_before/after, list-level "
+        "insert_before/after and append_to_family; a foreign BaseCfgLine as exist_val of the list-level inserts (its text is the regex, "
+        "the empty text included); values that are neither str nor BaseCfgLine as payload or pattern (None, int, list, float, bytes) and "
+        "a non-int index for insert (None, '1', 1.5) — the exception class is compared with the model and pinned by the oracle; "
+        "ConfigList.remove(obj) / remove(foreign line) / remove(str); `del2` = delete() twice through the same handle "
+        "(ConfigListItemDoesNotExist, IndexError, or a second deletion when an equal line has moved to the handle's number; configs with "
+        "runs of equal texts make the last two happen). Stream `forms-rand` = 700 histories of 1..4 operations mixing these with the "
+        "old alphabet, every third one (ignore_blank_lines off) parsed with factory=True — there append_to_family is not generated "
+        "(always refused after a possible change of the target's children list, known finding F10e) and insert is expected to be "
+        "refused (F10e). Stream `cfi` = 260 direct calls of classify_family_indent (str / line object / other value; indents 0..8 against "
+        "widths 1 and 2); stream `det` = 120 replace_text / re_sub sequences on a line object that belongs to no configuration.")
 LEVEL_TEXT = ("Theorems (Lean 4, Ccp.Props.C06, for all states and payloads of the edit state machine; text effect of one step when the "
               "following commit does not filter, i.e. auto_commit off, or on without ignore_blank_lines): insert(k)/append/pop(k) are exactly "
               "Python's list operations with the index normalisation stated (pop out of range = IndexError, state unchanged); list-level "
@@ -72,7 +86,22 @@ LEVEL_TEXT = ("Theorems (Lean 4, Ccp.Props.C06, for all states and payloads of t
               "With auto_commit on and ignore_blank_lines the texts are one bootstrap of the auto_commit-off result: a sublist of it keeping "
               "every non-blank line. The model is tied to the code by differential runs of whole histories (texts after every step, tree after "
               "every commit), and the parent-frame theorems are additionally replayed by the Python oracle on the implementation's own trees "
-              "(an independent re-implementation of captured_iff).")
+              "(an independent re-implementation of captured_iff). "
+              "Input forms (stepX / stepF of Ccp.Model.EditForms, tied to the code by the same differential runs): a BaseCfgLine payload is "
+              "its text for insert, obj.insert_before/after and append_to_family (line_payload_is_text); list-level inserts with str "
+              "arguments are the operation of the first part (listInsert_str_forms), a foreign line object as pattern is the regex of its "
+              "text, empty text included (listInsert_foreign_pattern), a line object as new_val is its text except that the blank-line "
+              "guard of ignore_blank_lines looks at str payloads only (listInsert_line_payload) — the blank line object is inserted and, on "
+              "a committed plain config, dropped again by the commit: texts and tree unchanged (listInsert_blank_line_dropped); every "
+              "value that is neither str nor line, a non-int index, a non-line / foreign argument of remove is refused with the class of its "
+              "entry point and the state is unchanged (malformed_rejected, errorsX_leave_state); ConfigList.remove(obj) is delete at list "
+              "level: the line and its descendants, nothing else (remove_is_delete, remove_spec); delete() twice through one handle: "
+              "always ConfigListItemDoesNotExist with auto_commit off; with auto_commit on refused unless the line now at the handle's "
+              "number has the deleted line's text, in which case the stale numbers are deleted once more or IndexError is raised "
+              "(deleteTwice_spec); under factory=True insert is refused with InvalidParameters after the index check and before the value "
+              "check, append_to_family never changes the list, everything else is as without the factory (factory_insert_refused, known "
+              "finding F10e); classify_family_indent called directly accepts a str only and returns the level difference "
+              "(classify_direct); replace_text / re_sub on a detached line are the same text functions (detached_edit).")
 LEVEL_NOTE = ("Trusted: Lean kernel, standard axioms, harness. Regexes are oracle data (rows / substituted texts computed with re by the "
               "harness); str.replace is modelled for a non-empty 'before'. Partial: the same-indent append_to_family placement is proved as the "
               "code does it (self + |children|, known finding F10b), not as the property wants it; for a childless target and a same-indent "
@@ -86,8 +115,17 @@ LEVEL_NOTE = ("Trusted: Lean kernel, standard axioms, harness. Regexes are oracl
               "early — decided counterexample), payloads that start a family, delete / replace below the edit, ignore_blank_lines together "
               "with families; for those only C07's 'tree after commit = fresh parse' applies. Not covered: states with uncommitted changes "
               "(auto_commit off), where no tree exists until the commit. The list-level frame is stated over positions of the new list "
-              "(rank = old position), not as a closed formula old index -> new index.")
-ASSUMPTIONS = ["object handles are used only on a committed state", "auto_indent_width is the syntax default (1, or 2 for nxos)"]
+              "(rank = old position), not as a closed formula old index -> new index. Known finding F10e: with factory=True "
+              "ConfigList.insert (hence append_to_family) always raises InvalidParameters — config_line_factory is called without all_lines; "
+              "modelled as the code does it (stepF), proposed patch notes/proposed-fixes/C06-2.patch; under factory=True a refused "
+              "append_to_family may already have put the new line into the target's children list (not modelled, not generated). "
+              "Observed, outside the property (ConfigList.append is typed `value: str`): append(<BaseCfgLine or any non-str>) stores a line "
+              "whose text is that object and then raises ValueError from the commit, leaving the list corrupted. Anchored lines never "
+              "executed by the quick run: 113 of 379 before the input-form streams, 64 after; the rest is debug logging, branches that "
+              "cannot be reached on a consistent tree (children without all_children and the like), a non-bool factory, a non-int "
+              "auto_indent_width, and ConfigList.__init__'s argument checks (the constructor is no editing operation).")
+ASSUMPTIONS = ["object handles are used only on a committed state (the one stale-handle case modelled is delete() twice in a row)",
+               "auto_indent_width is the syntax default (1, or 2 for nxos)"]
 TRUSTED = ["regex oracle rows", "str.replace modelled for non-empty 'before'"]
 EXHAUSTIVE = {"quick": False, "thorough": False}
 
